@@ -65,6 +65,7 @@ class Ctx:
         self.inconclusive = []
         self.current = None  # (workload, case_no)
         self.exhaustive = {}
+        self.distinct_sets = {}     # name -> set of 64-bit hashes of observed signatures
 
     # -- randomness -------------------------------------------------------------------
     def rng(self, *parts) -> random.Random:
@@ -86,6 +87,11 @@ class Ctx:
         h = self.hists.setdefault(name, {})
         key = str(key)
         h[key] = h.get(key, 0) + n
+
+    def distinct(self, name, sig):
+        """Record an observed signature (an interleaving, a state, a lock order ...); the evidence reports how
+        many DISTINCT ones were seen across all shards."""
+        self.distinct_sets.setdefault(name, set()).add(stable_hash(sig))
 
     def case_done(self, sig, nontrivial=True, sample=None):
         """Account one evaluated case.  `sig` canonically identifies the case (for the
@@ -128,6 +134,7 @@ class Ctx:
             "counters": self.counters, "hists": self.hists, "samples": self.samples,
             "violations": self.violations, "inconclusive": self.inconclusive,
             "exhaustive": self.exhaustive, "wall_s": self.elapsed(),
+            "distinct_sets": {k: sorted(v) for k, v in self.distinct_sets.items()},
         }
         with open(path, "w") as f:
             json.dump(data, f)
